@@ -6,9 +6,12 @@ cd /repo || exit 2
 if [ -n "$(git status --porcelain --untracked-files=no)" ]; then echo "/repo is dirty"; exit 2; fi
 git apply /verif/seeded/$ID/patch.diff || { echo "patch does not apply"; exit 2; }
 cd /verif
+# evidence files in /verif/evidence must describe runs on the unchanged tree: keep the current one
+cp -p evidence/$PROP.json /tmp/seedtest-evidence-$PROP.json 2>/dev/null
 ./run $PROP $TIER > /tmp/seedtest-$ID-$PROP.log 2>&1
 RC=$?
 git -C /repo checkout -- .
+if [ -f /tmp/seedtest-evidence-$PROP.json ]; then mv /tmp/seedtest-evidence-$PROP.json evidence/$PROP.json; fi
 echo "seed $ID vs $PROP ($TIER): exit $RC  $(grep -c '^VIOLATION' /tmp/seedtest-$ID-$PROP.log) violation line(s)"
 grep -E "^violation|^regression" /tmp/seedtest-$ID-$PROP.log | head -3
 exit $RC
